@@ -541,6 +541,30 @@ func c11(r *report.Run) {
 			}
 		}
 	}
+	// (i'') map literals whose key starts with a parenthesis: the key is an expression, of which the parenthesised group
+	// may be only the left part
+	for i, src := range []string{"{(a): 1}", "{(a).b: 1}", "{(a)[0]: 1}", "{(a) + b: 1}", "{(a + b) * c: 1}", "{(a) ? b : c: 1}", "{(a).b: 1, c: 2}", "{(a)?.b: 1}", "{((a)): 1}", "{(a)(b): 1}", "{(a).m(1): 2}", "{(a) in b: 1}", "{(a) ?: b: 1}"} {
+		want, perr, lerr := refparse.ParseString(src)
+		if lerr != nil {
+			continue
+		}
+		got, err := realParse(src)
+		atomic.AddInt64(&parses, 1)
+		kind := ""
+		switch {
+		case err != nil && strings.HasPrefix(err.Error(), "PANIC"):
+			kind = "panic"
+		case perr == nil && err != nil:
+			kind = "rejects-valid"
+		case perr != nil && err == nil:
+			kind = "accepts-invalid"
+		case perr == nil && got != want:
+			kind = "different-tree"
+		}
+		if kind != "" {
+			r.Report(report.Violation{Sub: "map-key", Kind: kind, Witness: src, Order: order + int64(i), Detail: map[string]interface{}{"reference_tree": want, "parsed_tree": got, "error": fmt.Sprint(err), "reference_error": fmt.Sprint(perr)}})
+		}
+	}
 	// (iii) one token inserted, deleted or doubled at every token boundary of every small tree: accept/reject and
 	// the tree must agree with the reference grammar
 	var edits int64
